@@ -2368,18 +2368,49 @@ impl SctpInner {
         }
 
         let old_cumulative_tsn = self.cumulative_tsn_ack.load(Ordering::SeqCst);
-        if new_cumulative_tsn > old_cumulative_tsn {
+        if tsn_gt(new_cumulative_tsn, old_cumulative_tsn) {
             debug!(
                 "FORWARD TSN: moving cumulative ack from {} to {}",
                 old_cumulative_tsn, new_cumulative_tsn
             );
+
+            // Chunks that were already received out of order at or below the new point are
+            // delivered in TSN order (the skipped TSNs are simply absent), and what follows
+            // the new point in order is delivered as well instead of waiting in the queue
+            // for another DATA chunk that may never come.
+            let mut covered: Vec<u32> = self
+                .received_queue
+                .lock()
+                .keys()
+                .filter(|&&t| !tsn_gt(t, new_cumulative_tsn))
+                .cloned()
+                .collect();
+            covered.sort_by_key(|t| t.wrapping_sub(old_cumulative_tsn));
+            for tsn in covered {
+                let entry = self.received_queue.lock().remove(&tsn);
+                if let Some((p_flags, p_chunk)) = entry {
+                    let chunk_len = p_chunk.len();
+                    self.process_data_payload(p_flags, p_chunk).await?;
+                    self.used_rwnd.fetch_sub(chunk_len, Ordering::Relaxed);
+                }
+            }
             self.cumulative_tsn_ack
                 .store(new_cumulative_tsn, Ordering::SeqCst);
-
-            {
-                let mut received_queue = self.received_queue.lock();
-                received_queue.retain(|&tsn, _| tsn > new_cumulative_tsn);
+            loop {
+                let next = self
+                    .cumulative_tsn_ack
+                    .load(Ordering::SeqCst)
+                    .wrapping_add(1);
+                let entry = self.received_queue.lock().remove(&next);
+                let Some((p_flags, p_chunk)) = entry else {
+                    break;
+                };
+                let chunk_len = p_chunk.len();
+                self.process_data_payload(p_flags, p_chunk).await?;
+                self.cumulative_tsn_ack.store(next, Ordering::SeqCst);
+                self.used_rwnd.fetch_sub(chunk_len, Ordering::Relaxed);
             }
+            self.schedule_sack_immediate();
 
             // Advance SSNs for ordered streams
             if !stream_ssn_pairs.is_empty() {
